@@ -175,23 +175,18 @@ Qed.
 Lemma nan_desc_corrupted : corrupted KNonFinite nan_desc.
 Proof. exists 1, NaN. split; reflexivity. Qed.
 
-(* four independent witnesses, each a suspected pyGAM defect: score(y), PoissonGAM.predict(exposure),
-   sample(y) with a skipped bootstrap loop, fit_quantile(y) on a fitted model *)
+(* independent witnesses, each a recorded defect of pyGAM that is not yet repaired: sample(y) with a skipped bootstrap loop,
+   fit_quantile(y) on a fitted model (score / PoissonGAM.predict exposure / unfitted gridsearch / loglikelihood lengths /
+   PoissonGAM list targets were repaired in /repo and their exceptions removed) *)
 Lemma entrypoints_refuted :
   ~ (forall e k d fitted skip, In e c11_traces -> applicable e k = true -> corrupted k d -> state_ok e fitted = true ->
        run_trace (e_actions e) d fitted skip = RaisedVE).
-Proof. apply (refuting_sound "GAM" "score" AY KNonFinite nan_desc true false nan_desc_corrupted). vm_compute. reflexivity. Qed.
-Lemma refuted_poisson_predict_exposure :
-  existsb (refuting "PoissonGAM" "predict" AE KNonFinite nan_desc true false) c11_traces = true.
-Proof. vm_compute. reflexivity. Qed.
+Proof. apply (refuting_sound "LinearGAM" "sample" AY KNonFinite nan_desc true true nan_desc_corrupted). vm_compute. reflexivity. Qed.
 Lemma refuted_sample_y_one_bootstrap :
   existsb (refuting "LinearGAM" "sample" AY KNonFinite nan_desc true true) c11_traces = true.
 Proof. vm_compute. reflexivity. Qed.
 Lemma refuted_fit_quantile_y_fitted :
   existsb (refuting "ExpectileGAM" "fit_quantile" AY KNonFinite nan_desc true false) c11_traces = true.
-Proof. vm_compute. reflexivity. Qed.
-Lemma refuted_gridsearch_unfitted_X :
-  existsb (refuting "GAM" "gridsearch" AX KNonFinite nan_desc false false) c11_traces = true.
 Proof. vm_compute. reflexivity. Qed.
 
 (* every listed exception is a genuine failure of the extracted traces (the list is tight) *)
